@@ -82,7 +82,13 @@ def corpus():
             mk("pfe", 3, 0, [1, 2, 3, 4], ["exhaust"], 12, 2, badopts=True),
             mk("merge", 3, 0, list(range(1, 65)), ["closeduringfirst"], 13, 4),
             mk("genpar", 2, 0, list(range(1, 65)), ["closeduringfirst"], 14, 4),
-            mk("dtmap", 1, 0, list(range(1, 17)), ["closeduringfirst"], 15, 2)]
+            mk("dtmap", 1, 0, list(range(1, 17)), ["closeduringfirst"], 15, 2),
+            # the boundary number of inputs: MergeIterators() of nothing is a finite (empty) input and must reach
+            # io.EOF; Close and cancellation before the first advance must unwind it too (seeded change C04-v1)
+            mk("merge0", 1, 0, [], ["exhaust"], 17, 2),
+            mk("merge0", 1, 0, [], ["close", 0], 17, 2),
+            mk("merge0", 1, 0, [], ["cancel", 0], 17, 2),
+            mk("merge0", 1, 0, [], ["closecancel", 0], 17, 1)]
 
 
 def known_witnesses():
